@@ -217,4 +217,19 @@ var Controls = []Control{
 	{"C10", "refactored U07-2: formatting helper skipped without arguments", "errutil/utilities.go", `\terr := newFormattedError\(format, args\)\n`, "\tvar err error = &leafError{redact.Sprint(redact.Safe(format))}\n\tif len(args) > 0 {\n\t\terr = newFormattedError(format, args)\n\t}\n", "R-FMT-PATH"},
 	{"C11", "refactored U08-3: extracted helper builds the frames itself", "withstack/reportable.go", `\t\treturn parsePrintedStack\(details\[0\]\)\n\t\}\n\treturn nil\n\}`, "\t\treturn &ReportableStackTrace{}\n\t}\n\treturn nil\n}", "R-ONE-PARSER"},
 	{"C11", "refactored U04-2: generic-path helper escapes the safe details", "errbase/encode.go", `\t\treturn s\.SafeDetails\(\)\n\t\}\n\treturn nil\n\}`, "\t\treturn append([]string(nil), s.SafeDetails()...)[:0]\n\t}\n\treturn nil\n}", "R-GENERIC-PATH"},
+	// round 6
+	{"C09", "formatter wrapper ignores the ownership answer", "errbase/format_error.go", `if elideCauseMsg := s\.formatSimple\(err, cause\); elideCauseMsg \{`, "if elideCauseMsg := s.formatSimple(err, cause); !elideCauseMsg {", "R-ELIDE"},
+	{"C01", "special-case ownership answer dropped", "errbase/format_error.go", `\t\t\t\tif desiredShortening == nil \{\n\t\t\t\t\t// The error wants to elide the short messages from inner\n\t\t\t\t\t// causes\. Do it\.\n\t\t\t\t\ts\.elideShortChildren\(numChildren\)\n\t\t\t\t\}\n`, "\t\t\t\t_ = desiredShortening\n", "R-ELIDE"},
+	{"C04", "empty unknown wrapper collapses into its cause", "errbase/decode.go", `\t// Otherwise, preserve all details about the original object\.\n`, "\tif enc.Message == \"\" && len(enc.Details.ReportablePayload) == 0 {\n\t\treturn cause\n\t}\n\t// Otherwise, preserve all details about the original object.\n", "R-DECODE-RESULT"},
+	{"C02", "mark decoder declines an empty message", "markers/markers.go", `if !ok \|\| len\(m\.Types\) == 0 \{`, `if !ok || m.Msg == "" || len(m.Types) == 0 {`, "R-DECLINE"},
+	{"C11", "telemetry keys sent joined on one line", "telemetrykeys/with_telemetry.go", `func \(w \*withTelemetry\) SafeDetails\(\) \[\]string \{ return w\.keys \}`, `func (w *withTelemetry) SafeDetails() []string { return []string{strings.Join(w.keys, " ")} }`, "R-LIST-ROUNDTRIP"},
+	{"C11", "telemetry keys sent as a defensive copy", "telemetrykeys/with_telemetry.go", `func \(w \*withTelemetry\) SafeDetails\(\) \[\]string \{ return w\.keys \}`, `func (w *withTelemetry) SafeDetails() []string { return append([]string(nil), w.keys...) }`, CleanVariant},
+	{"C10", "barrier built by a helper returning a nil pointer", "barriers/barriers.go", `func HandledWithSafeMessage\(err error, msg redact\.RedactableString\) error \{\n\tif err == nil \{\n\t\treturn nil\n\t\}\n\treturn &barrierErr\{maskedErr: err, smsg: msg\}\n\}`, "func HandledWithSafeMessage(err error, msg redact.RedactableString) error {\n\treturn newBarrier(err, msg)\n}\n\nfunc newBarrier(err error, msg redact.RedactableString) *barrierErr {\n\tif err == nil {\n\t\treturn nil\n\t}\n\treturn &barrierErr{maskedErr: err, smsg: msg}\n}", "R-BOXED-NIL"},
+	{"C15", "frames appended only for resolved entries", "withstack/reportable.go", `\t\t\tframe\.Module, frame\.Function = functionName\(fnName\)\n\t\t\}\n\t\tframes = append\(frames, frame\)\n`, "\t\t\tframe.Module, frame.Function = functionName(fnName)\n\t\t\tframes = append(frames, frame)\n\t\t}\n", "R-FRAME-PER-ENTRY"},
+	{"C19", "unimplemented leaf counts only with a non-empty link", "issuelink/issuelink.go", `case \*unimplementedError:\n\t\treturn w\.IssueLink, true`, "case *unimplementedError:\n\t\treturn w.IssueLink, w.IssueLink != (IssueLink{})", "R-LAYER-GETTER"},
+	{"C18", "package-level sentinel table handed out", "errutil/format_error_special.go", `var safeLeafSentinels = \[\]error\{`, "// SafeLeafSentinels lists the sentinels whose text is printed as safe.\nfunc SafeLeafSentinels() []error { return safeLeafSentinels }\n\nvar safeLeafSentinels = []error{", "R-GLOBAL-ALIAS"},
+	{"C14", "As remembers explored branches in a map keyed by the error", "errutil/as.go", `\t\tfor _, cause := range errbase\.UnwrapMulti\(c\) \{\n\t\t\tif As\(cause, target\) \{\n\t\t\t\treturn true\n\t\t\t\}\n\t\t\}`, "\t\tvar explored map[error]struct{}\n\t\tfor _, cause := range errbase.UnwrapMulti(c) {\n\t\t\tif _, ok := explored[cause]; ok {\n\t\t\t\tcontinue\n\t\t\t}\n\t\t\tif As(cause, target) {\n\t\t\t\treturn true\n\t\t\t}\n\t\t\tif explored == nil {\n\t\t\t\texplored = make(map[error]struct{})\n\t\t\t}\n\t\t\texplored[cause] = struct{}{}\n\t\t}", "R-CMP-GUARD"},
+	{"C14", "Is looks into branches at the end of the chain only", "markers/markers.go", `(\tfor c := err; c != nil; c = errbase\.UnwrapOnce\(c\) \{\n\t\tif isComparable && c == reference \{.*?)\n\t\t// Recursively try multi-error causes, if applicable\.\n\t\tfor _, me := range errbase\.UnwrapMulti\(c\) \{\n\t\t\tif Is\(me, reference\) \{\n\t\t\t\treturn true\n\t\t\t\}\n\t\t\}\n\t\}\n`, "\tvar last error\n$1\n\t\tlast = c\n\t}\n\tfor _, me := range errbase.UnwrapMulti(last) {\n\t\tif Is(me, reference) {\n\t\t\treturn true\n\t\t}\n\t}\n", "R-WALK-MULTI"},
+	{"C07", "hidden error rendered to text before printing", "barriers/barriers.go", `p\.Printf\("-- cause hidden behind barrier\\n%\+v", e\.maskedErr\)`, "p.Printf(\"-- cause hidden behind barrier\\n%s\", redact.Sprintf(\"%+v\", e.maskedErr).StripMarkers())", "R-DETAIL-PRINT"},
+	{"C20", "code decoder declines the zero code", "extgrpc/ext_grpc.go", `wp, ok := payload\.\(\*EncodedGrpcCode\)\n\tif !ok \{`, "wp, ok := payload.(*EncodedGrpcCode)\n\tif !ok || wp.Code == 0 {", "R-DECLINE"},
 }
